@@ -94,6 +94,12 @@ def run(case, rec):
             for k, val in (cfg.get("meta") or {}).items():
                 if meta.get(k) != val:
                     rec.fail("file_meta:user-entry", [k, meta.get(k), val])
+            if not cfg.get("preload"):
+                # "hands back the stored file metadata": every entry of the header that is in the file
+                stored = serial.read_document(src)["meta"]
+                if meta != stored:
+                    diff = sorted(set(stored) ^ set(meta)) or sorted(k for k in stored if stored[k] != meta.get(k))
+                    rec.fail("file_meta:differs-from-the-stored-header", {"keys": diff, "cfg": cfg})
             if first is None:
                 first = v
                 # second generation: saving the loaded tree and loading it again changes nothing
